@@ -58,7 +58,8 @@ func OpenStore(backend, dir string) (store.Store, error) {
 			WithValueLogFileSize(16 << 20).WithMemTableSize(64 << 20).WithNumCompactors(2).WithNumMemtables(2).
 			WithBlockCacheSize(1 << 20).WithIndexCacheSize(1 << 20))
 	case BadgerDefault:
-		return badgerstore.OpenWithOptions(badger.DefaultOptions(dir).WithLoggingLevel(badger.ERROR))
+		// exactly what a user of the badger backend gets: the shipped constructor
+		return badgerstore.Open(dir)
 	case BadgerDiskSmall:
 		return badgerstore.OpenWithOptions(badger.DefaultOptions(dir).WithLoggingLevel(badger.ERROR).
 			WithValueLogFileSize(4 << 20).WithMemTableSize(4 << 20).WithValueThreshold(32 << 10).WithNumCompactors(2).WithNumMemtables(2).
